@@ -134,11 +134,22 @@ def _cli_case(ctx, d, rng, tmp, it, opt):
     m = 5 if centering else (6 if it % 2 == 0 else 5)       # even boxes only arise without centring
     ms = [m] * 3
     ns = [int(x) for x in rng.integers(3 * m + 4, 3 * m + 8, size=3)]
+    margin = 0
+    if border == "upper":
+        # a template whose density sits in the middle of a larger, otherwise empty box (the usual cryo-EM situation): the
+        # box may overhang the target's upper border while the density itself is still inside the target
+        m, margin = 9, 3
+        ms = [m] * 3
+        ns = [int(x) for x in rng.choice([23, 29, 31, 37], size=3)]      # next_fast_len(n) > n on every axis
     # asymmetric positive template; with centring the enclosing box is the template box itself (all voxels > 0)
     template = rng.random(ms) * 0.8 + 0.2
-    template[0, :, :] += 1.5
-    template[:, 1, :] += 0.7
-    template[:, :, 2] += 1.1
+    template[0 + margin, :, :] += 1.5
+    template[:, 1 + margin, :] += 0.7
+    template[:, :, 2 + margin] += 1.1
+    if margin:
+        core = np.zeros(ms, bool)
+        core[(slice(margin, m - margin),) * 3] = True
+        template = np.where(core, template, 0.0)
     # the rotation set the tool will use (24 grid rotations, in the tool's order: inner jobs get contiguous chunks)
     from tme.matching_utils import get_rotation_matrices
     Rset = np.asarray(get_rotation_matrices(angular_sampling=60, dim=3), dtype=np.float64)
@@ -168,9 +179,10 @@ def _cli_case(ctx, d, rng, tmp, it, opt):
             # enters the window, so these two are planted in the interior
             P0.append(int(rng.integers(4, n - m - 3)))
         else:
-            P0.append(int(rng.choice([0, n - m])) if border else int(rng.integers(1, n - m)))
-    target = rng.normal(0, 0.15, size=ns)
-    target[tuple(slice(p, p + m) for p in P0)] += gR
+            P0.append(n - m + margin if border == "upper" else int(rng.choice([0, n - m])) if border else int(rng.integers(1, n - m)))
+    target = rng.normal(0, 0.05 if margin else 0.15, size=ns)
+    # (the box may overhang the upper border: only the part inside the target is added; the overhanging part of gR is empty)
+    target[tuple(slice(p, min(p + m, n)) for p, n in zip(P0, ns))] += gR[tuple(slice(0, min(m, n - p)) for p, n in zip(P0, ns))]
     case_dir = os.path.join(tmp, f"cli_{it}")
     os.makedirs(case_dir, exist_ok=True)
     _write_mrc(os.path.join(case_dir, "target.mrc"), target)
@@ -292,6 +304,12 @@ def run(ctx):
             # (with a memory limit the tool may legitimately find no schedule for an odd core count: keep 2 there)
             "jobs": 2 if it % 2 == 1 else [5, 2, 7, 2, 2][it % 5],
         })
+        if it % 8 == 6:
+            # the tool's plain defaults: score map, no --pad_fourier, no --pad_edges, no memory limit, no centring; the particle
+            # touches the upper border of a target whose extents are not fast FFT lengths
+            opts[-1].update(peak_calling=False, split=False, centering=False, pad_fourier=False, pad_edges=False, border="upper",
+                            use_memmap=False, jobs=2, score=["FLCSphericalMask", "CORR", "FLC", "CAM"][(it // 8) % 4],
+                            peak_caller=["PeakCallerMaximumFilter", "PeakCallerSort"][(it // 8) % 2])
     # it=0: no centring, even box, --pad_edges, score map;  it=1: -p, memory-limited split, 2 cores, odd box, no centring
     # run the subprocess cases on a few workers
     from concurrent.futures import ThreadPoolExecutor
